@@ -174,8 +174,8 @@ Qed.
 Ltac no_wrap_in z := lazymatch z with context [wrap] => fail | _ => idtac end.
 Ltac wrap_small :=
   repeat match goal with
-         | |- context [wrap U64 ?z] => no_wrap_in z; rewrite (wrap_u64_small z) by nia
-         | |- context [wrap I32 ?z] => no_wrap_in z; rewrite (wrap_i32_small z) by nia
+         | |- context [wrap U64 ?z] => no_wrap_in z; rewrite (wrap_u64_small z) by (timeout 3 nia)
+         | |- context [wrap I32 ?z] => no_wrap_in z; rewrite (wrap_i32_small z) by (timeout 3 nia)
          end.
 Ltac wrap_done := wrap_small; lazymatch goal with |- context [wrap] => fail "a wrap remains" | _ => reflexivity end.
 
@@ -291,9 +291,9 @@ Definition oseq3 (d : vec3 IZ) := multidim_index_sequence3_mk__v3ul OZ (toO3 d).
 Ltac no_chk_in z := lazymatch z with context [chk] => fail | _ => idtac end.
 Ltac chk_step :=
   match goal with
-  | |- context [chk U64 ?z] => no_chk_in z; rewrite (chk_u64 z) by nia
-  | |- context [chk I32 ?z] => no_chk_in z; rewrite (chk_i32 z) by nia
-  | |- context [?y =? 0] => rewrite (proj2 (Z.eqb_neq y 0)) by nia
+  | |- context [chk U64 ?z] => no_chk_in z; rewrite (chk_u64 z) by (timeout 3 nia)
+  | |- context [chk I32 ?z] => no_chk_in z; rewrite (chk_i32 z) by (timeout 3 nia)
+  | |- context [?y =? 0] => rewrite (proj2 (Z.eqb_neq y 0)) by (timeout 3 nia)
   end; cbv beta iota delta [o_bop z_bop].
 Ltac chk_done := repeat chk_step; lazymatch goal with |- context [chk] => fail "a check remains" | _ => reflexivity end.
 Ltac ounfold := cbv [oseq2 oseq3 seq2 seq3]; cbv [toO2 toO3]; gen_unfold.
